@@ -33,10 +33,11 @@ _built = {}
 
 
 def build_harness(cfg="a"):
-    """(re)build the harness against /repo's current working tree, hook on. cfg: a | b"""
+    """(re)build the harness against /repo's current working tree, hook on. cfg: a | b | p (a with payloads that have no drop glue)"""
     if cfg in _built:
         return _built[cfg]
-    feats = {"a": ["--features", "cfg_a"], "b": ["--no-default-features", "--features", "cfg_b"]}[cfg]
+    feats = {"a": ["--features", "cfg_a"], "b": ["--no-default-features", "--features", "cfg_b"],
+             "p": ["--features", "cfg_a,plain_payloads"]}[cfg]
     tdir = os.path.join(HARNESS, "target", "cfg_" + cfg)
     t0 = time.time()
     r = sh(["cargo", "build", "--release", "--offline", "--target-dir", tdir] + feats, cwd=HARNESS, timeout=1200)
